@@ -33,7 +33,7 @@ import (
 func init() {
 	Register(&Check{ID: "C35", World: "B/cluster (race detector)", Gen: genRace, Run: runRace, RaceMode: true, Real: bReal,
 		Stub:      append(append([]string{}, bStub...), "doubles run stateless; oracles other than the race detector are off"),
-		OwnProbes: []string{"race_run_with_reload", "race_run_with_stress_toggle", "race_run_with_memory_pressure", "race_run_redis_membership", "race_run_with_shutdown_under_load", "race_run_query_endpoints"}})
+		OwnProbes: []string{"race_run_with_reload", "race_run_with_stress_toggle", "race_run_with_memory_pressure", "race_run_redis_membership", "race_run_with_shutdown_under_load", "race_run_query_endpoints", "race_run_span_under_stress"}})
 }
 
 func genRace(r *Rng, tier string, p *Plan) {
@@ -49,6 +49,12 @@ func genRace(r *Rng, tier string, p *Plan) {
 		n = r.Range(5, 80)
 	}
 	now := int64(0)
+	if r.Bool(0.4) {
+		// relief on from the start on some node, so that most of the traffic
+		// there takes the stress path
+		p.Add(Op{K: "stress", At: 0, I: int64(r.Intn(nodes)), N: 1})
+		now = 250_000
+	}
 	for i := 0; i < n; i++ {
 		now += PickOf(r, int64(0), 0, 1000, 20_000, 100_000, 300_000)
 		nd := int64(r.Intn(nodes))
@@ -177,6 +183,9 @@ func runRace(t *testing.T, p *Plan) *Outcome {
 					}
 					ev := &bEvent{marker: fmt.Sprintf("m%d", op.N), traceID: tid, root: op.M == 3, rate: 1, ts: time.Unix(1700000000, 0).UTC(), fields: map[string]any{"f1": "x"}}
 					req := &bRequest{id: op.ID, node: int(op.I), peer: op.B, endpoint: op.T, enc: op.S, apiKey: legacyKey, dataset: "ds0", events: []*bEvent{ev}}
+					if tid != "" && n.sr.Stressed() {
+						out.Probe("race_run_span_under_stress")
+					}
 					w.send(req)
 				case "reload":
 					out.Probe("race_run_with_reload")
